@@ -289,6 +289,20 @@ def check_method(ctx, world, wd, mname, kind, attr, nested, params, receiver):
             ctx.fail(f"reach|_if|{kind}", test, f"{mname}(_if=False, _inplace=True) -> {o1}; receiver returned: {v1 is r1}; receiver unchanged: {snap.identity_form() == Snapshot(r1).identity_form()}")
             return False
         ctx.case(test, True)
+    if kind == "scalar_with" and world.attrs()[attr]["type"] == ["int"] and not world.prepare_kind(attr):
+        # "reaches the underlying behaviour with the value given": a value that merely compares equal to the one held (True
+        # where 1 is held) is still the value given
+        test = dict(case0, test="reach:equal_but_other_value")
+        r1 = receiver()
+        o1, v1 = ops.execute(world, r1, {"t": "call", "m": mname, "a": [1], "k": {}})
+        if o1 == "ok":
+            for inplace in (False, True):
+                o2, v2 = ops.execute(world, v1, {"t": "call", "m": mname, "a": [True], "k": {"_inplace": inplace}})
+                got = getattr(v2, attr, "<unset>") if o2 == "ok" else v2
+                if o2 != "ok" or got is not True:
+                    ctx.fail(f"reach|value_given|{kind}|{'inplace' if inplace else 'copy'}", test, f"{mname}(True{', _inplace=True' if inplace else ''}) on an instance holding 1 -> {o2}, stored {got!r}")
+                    return False
+            ctx.case(test, True)
     if kind == "elem_with" and "_index" in names:
         new = args[-1]
         r1, (o1, v1) = call(args, dict(kwargs, _index=0, _insert=True))
@@ -506,6 +520,15 @@ def world_strategy(draw):
                 anc.append(c)
         if anc and by_name[wd["instance_class"]]["kind"] == "spec":  # (a plain instance class would merely inherit an older constructor)
             src.pick(anc)["opts"]["init"] = False
+    by_name = {c["name"]: c for c in wd["classes"]}
+    if "P" in by_name and "M" in by_name and src.chance(1, 4):
+        # M re-declares an attribute of its spec parent P with another default: M's methods advertise M's default
+        cands = [a for a in by_name["P"]["attrs"] if a["type"][0] in ("int", "str") and a["default"][0] in ("lit", "attr_default")
+                 and a["name"] not in [x["name"] for x in by_name["M"]["attrs"]] and a["name"] not in (by_name["M"].get("redefaults") or {})]
+        if cands:
+            a = src.pick(cands)
+            new = {"int": [41, 42, 0], "str": ["rd", "", "zz"]}[a["type"][0]]
+            by_name["M"]["attrs"].append({"name": a["name"], "type": a["type"], "default": ["lit", src.pick([v for v in new if v != a["default"][1]])]})
     if wd["instance_class"] == "Q" and src.chance(1, 2):
         # a decorated class below the undecorated one (which may re-default inherited attributes): its constructor is generated
         # for it, and advertises the defaults in force for it
